@@ -468,7 +468,7 @@ def fd_phase(ctx):
 
     def _prove():
         try:
-            box["proved"] = vlib.prove(ctx, ["Properties_FD.v"], facts=["fd"])
+            box["proved"] = vlib.prove(ctx, ["Properties_FD.v", "Properties_FD_src.v"], facts=["fd", "fdfun"])
         except Exception as e:          # noqa: BLE001
             box["proved"] = False
             box["exc"] = repr(e)
